@@ -172,7 +172,7 @@ fn run_case(
     }
 }
 
-fn class_of(s: &str) -> String {
+pub fn class_of(s: &str) -> String {
     let mut cls: Vec<String> = vec![];
     for c in s.chars() {
         let k = if c.is_ascii_alphanumeric() { "alnum".to_string() } else if (c as u32) < 0x20 || c as u32 == 0x7f { "control".to_string() } else if c.is_ascii() { format!("{:?}", c) } else { "non-ascii".to_string() };
@@ -233,6 +233,24 @@ pub fn run(args: &Args) -> Report {
                     &|rig| ok(rig.client().path_params(a, &alias, r)),
                     &|rig| ok(block_on(rig.async_client().path_params(a, &alias, r))));
             }
+        }
+    }
+
+    // ---- outOfOrder: path arguments declared in another order than the template uses them
+    for (i, s) in strings.iter().enumerate() {
+        for pos in 0..3 {
+            let (first, second, q) = match pos {
+                0 => (s.clone(), "2nd".to_string(), Some("q".to_string())),
+                1 => ("1st".to_string(), s.clone(), None),
+                _ => ("1st".to_string(), "2nd".to_string(), Some(s.clone())),
+            };
+            let third = i as i32 - 3;
+            let ret = format!("r{}", i);
+            let ret2 = ret.clone();
+            run_case(&mut cx, "out_of_order", ["first", "second", "q"][pos], &class_of(s), vec![rec(&third), rec(&second), rec(&q), rec(&first)], rec(&ret), false,
+                &|h| h.set_return(ret2.clone()),
+                &|rig| ok(rig.client().out_of_order(third, &second, q.as_deref(), &first)),
+                &|rig| ok(block_on(rig.async_client().out_of_order(third, &second, q.as_deref(), &first))));
         }
     }
 
